@@ -1266,6 +1266,86 @@ pub fn search_pct(out: &mut Vec<Finding>) {
     }
 }
 
+
+fn is_mt(c: u8) -> bool {
+    c.is_ascii_alphanumeric() || matches!(c, b'/' | b'!' | b'#' | b'$' | b'&' | b'-' | b'+' | b'^' | b'_' | b'.')
+}
+/// shape of a data URL: 'data:' media-type [';base64'] ',' data  ->  (end of the media type, base64?, start of the data)
+fn data_shape(s: &[u8]) -> Option<(usize, bool, usize)> {
+    if s.len() < 5 || &s[..5] != b"data:" {
+        return None;
+    }
+    let mut i = 5;
+    while i < s.len() {
+        let c = s[i];
+        if c == b',' {
+            return Some((i, false, i + 1));
+        }
+        if c == b';' {
+            return if s.len() >= i + 8 && &s[i + 1..i + 8] == b"base64," { Some((i, true, i + 8)) } else { None };
+        }
+        if !is_mt(c) {
+            return None;
+        }
+        i += 1;
+    }
+    None
+}
+/// C18: the scanner accepts exactly the data-URL shape; the re-scanning borrowed accessors and the offset-based parts agree
+pub fn search_dataurl(out: &mut Vec<Finding>) {
+    let mut texts: Vec<Vec<u8>> = vec![];
+    for t in strings(b"a;,/b", 6) {
+        texts.push([&b"data:"[..], &t[..]].concat());
+    }
+    for t in strings(b"a;,", 3) {
+        texts.push([&b"data:"[..], &t[..], &b";base64,"[..]].concat());
+        texts.push([&b"data:,"[..], &t[..], &b";base64,"[..], &t[..]].concat());
+        texts.push([&b"data:a;base64,"[..], &t[..]].concat());
+        texts.push([&b"data:;base64,"[..], &t[..]].concat());
+    }
+    for s in texts {
+        let sh = data_shape(&s);
+        let s2 = s.clone();
+        let r = guarded(move || {
+            let st = std::str::from_utf8(&s2).unwrap();
+            let parts = uri::data::DataUrlPartsRef::parse(st);
+            match parts {
+                None => None,
+                Some(p) => {
+                    let d = unsafe { uri::data::DataUrl::new_unchecked(s2.as_slice()) };
+                    Some((
+                        p.media_type.map(|m| m.as_bytes().to_vec()), p.base_64, p.data.as_bytes().to_vec(),
+                        d.media_type().map(|m| m.as_bytes().to_vec()), d.is_base_64_encoded(), d.encoded_data().as_bytes().to_vec(),
+                    ))
+                }
+            }
+        });
+        let bad: Option<(String, String, String)> = match r {
+            None => Some(("a data-URL view panics".into(), "panic".into(), "no panic".into())),
+            Some(got) => match (got, sh) {
+                (None, None) => None,
+                (Some(_), None) => Some(("the scanner accepts a text that is not of the data-URL shape".into(), "accepted".into(), "rejected".into())),
+                (None, Some(_)) => Some(("the scanner rejects a text of the data-URL shape".into(), "rejected".into(), "accepted".into())),
+                (Some((pm, pb, pd, dm, db, dd)), Some((mte, b64, ds))) => {
+                    let em = if mte > 5 { Some(s[5..mte].to_vec()) } else { None };
+                    let ed = s[ds..].to_vec();
+                    if pm != em || pb != b64 || pd != ed {
+                        Some(("the parts (media type, base64 flag, data) are not those of the shape".into(), format!("{:?} {} {:?}", pm.map(|x| lossy(&x)), pb, lossy(&pd)), format!("{:?} {} {:?}", em.map(|x| lossy(&x)), b64, lossy(&ed))))
+                    } else if dm != em || db != b64 || dd != ed {
+                        Some(("the borrowed accessors (re-scan) disagree with the parts".into(), format!("{:?} {} {:?}", dm.map(|x| lossy(&x)), db, lossy(&dd)), format!("{:?} {} {:?}", em.map(|x| lossy(&x)), b64, lossy(&ed))))
+                    } else {
+                        None
+                    }
+                }
+            },
+        };
+        if let Some((what, real, expected)) = bad {
+            out.push(Finding { what, inputs: vec![s.clone()], real, expected });
+            return;
+        }
+    }
+}
+
 pub fn search(prop: &str) -> Vec<Finding> {
     let mut out = vec![];
     match prop {
@@ -1292,6 +1372,7 @@ pub fn search(prop: &str) -> Vec<Finding> {
         "C11" => search_authmut(&mut out),
         "C06" => search_resolve(&mut out),
         "C19" => search_pct(&mut out),
+        "C18" => search_dataurl(&mut out),
         "C01" => search_routes(&mut out),
         "C15" => search_relative(&mut out, false),
         "C15all" => search_relative(&mut out, true),
